@@ -84,4 +84,22 @@ CHECKS = {
         'trusted_base': [KERNEL, AX, TIE, 'model Pangaea/Eval/Chain.lean is a hand transcription of eval_propcall_chain.go and eval_literalcall_chain.go; callee, iterator and digest are parameters of the theorems'],
         'assumptions': ['the callee is a pure function in the theorems (side-effect order is C07/C08)', 'the chain argument / initial accumulator is not an error value (it is checked before the chain runs)', 'Obj/Map digests are exercised only by the forms-agree oracle'],
     },
+    'C02': {
+        'lean_modules': ['Pangaea.Theorems.C02'],
+        'theorem_modules': ['Pangaea.Theorems.C02'],
+        'generated': ['C02'],
+        'theorems': ['Pangaea.C02.infix_grouping', 'Pangaea.C02.implied_parentheses', 'Pangaea.C02.grouping_unique', 'Pangaea.C02.ladder_is_documented',
+                     'Pangaea.C02.prec_annotations', 'Pangaea.C02.infix_rules', 'Pangaea.C02.tables_follow_precedence', 'Pangaea.C02.tables_nonempty'],
+        'harness': ['C02'],
+        'shards': 14,
+        'spec_is_function': True,
+        'exhaustive': True,
+        'rule': 'real parser vs the Lean operator-precedence parser (ladder of Syntax/Table.lean; yacc shift-reduce machine for pure infix strings): exhaustive 23x23 ordered infix pairs (plain operands '
+                'and operand shapes ident/literal/call/index/grouped), triples (sampled 1/4 quick, all 23^3 thorough), every infix operator x {5 prefix ops, 8 chain forms, if, if-else, :=, +=, =>, '
+                'return/raise/yield/defer, guarded jump} in both orders, construct x construct, 26 hand-picked ternary/assignment/jump mixes incl. rejected ones, random mixes of 2-7 operators; '
+                'observable ast String(); agreement on syntax errors; implementation-only oracle: re-parsing the fully parenthesised print gives the same tree. non-trivial: all; distinct by source text',
+        'trusted_base': [KERNEL, AX, TIE, 'translator /verif/extract: ladder, %prec and rules from parser.go.y; goyacc y.output as a description of y.go (goyacc re-run, output compared with the committed y.go)',
+                         'the equivalence "LALR automaton = operator-precedence parser on all strings" is not proved: it rests on the state-table validation and the exhaustive pair/triple/mix run'],
+        'assumptions': ['documented ladder = docs/reference/operators.md order, transcribed in Syntax/Table.lean', 'call f(x) and index a[0] apply to a unit expression (grammar structure), so they are atoms for the precedence parser'],
+    },
 }
